@@ -16,6 +16,7 @@ Statements
 ["rec"]                 record logical seconds/beats seen
 ["wait", d]             yield d   (d = "inf": yield float('inf'), wait for ever)
 ["spawn", r]            play routine r on its clock with its quant
+["make", r]             create Routine r now (a later ["spawn", r] anywhere plays that object)
 ["embed", r]            run routine r in place: yield from embed(Routine r)
 ["cset", c, v(, "fn")]  condition c's test = v (or a function returning v)
 ["spawna", r, d]        clock_of_r.sched_abs(its present beat + d, Routine r); d < 0: in the past
@@ -118,6 +119,24 @@ def gen(tp, feat, tier='quick'):
             if st[0] == 'wait':
                 out.append(['rec'])
         routines[r]['body'] = out
+    if feat.get('premake'):
+        # a child created by its parent (whose random generator it inherits)
+        # but played later by a sibling, i.e. from another time thread
+        for p in range(n_r):
+            kids = [st[1] for st in routines[p]['body'] if st[0] == 'spawn']
+            if len(kids) < 2 or tp.draw(2):
+                continue
+            c = tp.choice(kids)
+            b = tp.choice([x for x in kids if x != c])
+            body = [st for st in routines[p]['body']
+                    if not (st[0] == 'spawn' and st[1] == c)]
+            ib = next(i for i, st in enumerate(body)
+                      if st[0] == 'spawn' and st[1] == b)
+            body.insert(tp.draw(ib + 1), ['make', c])
+            routines[p]['body'] = body
+            bb = routines[b]['body']
+            bb.insert(1 + tp.draw(len(bb)), ['spawn', c])
+            routines[c]['seed'] = None
     return {'t0': T0, 'clocks': clocks, 'routines': routines}
 
 
@@ -319,6 +338,7 @@ class Interp:
         self.robj = {}
         self.conds = {}
         self.cflags = {}
+        self.premade = {}
         self.flows = {}
         self.addr = snad.NetAddr(*target)
         self.nrec = {}
@@ -409,10 +429,13 @@ class Interp:
                 'clock_ok': clock is self.clocks[
                     self.prog['routines'][rid]['clock']],
                 'now': self.now()})
+        elif op == 'make':
+            self.event('make', rid, st[1])
+            self.premade[st[1]] = self.make(st[1])
         elif op == 'spawn':
             cid = st[1]
             cdef = self.prog['routines'][cid]
-            r = self.make(cid)
+            r = self.premade.pop(cid, None) or self.make(cid)
             q = cdef['quant']
             cc = self.clocks[cdef['clock']]
             self.trace.append({'ev': 'spawn', 'r': rid, 'child': cid,
